@@ -39,6 +39,12 @@ CLAIMED["C14"] = ("model_checking", "explicit-state breadth-first search over ed
 CLAIMED["C15"] = ("model_checking", "exhaustive enumeration of expression trees (<=2 operators over the full operator/leaf alphabet, 3-4 over reduced ones) and of conditional constraints on a value grid against a dual-number reference, plus explicit-state BFS over add/remove/set-value/set_structure histories of a constraint pool with shared leaves and sub-expressions",
     "every tree of the stated alphabets is built through the library's operator overloading, compiled, and its residual and Jacobian row are compared at 36 grid points with an independent dual-number evaluation and with the library's direct Python evaluation; conditional constraints are probed at, below and above every bound; every history of the pool up to the depth bound is replayed on a real Model and residual length, index permutation, get_x, residuals and Jacobian are compared in every state",
     "expressions with more operators, other leaf values and points of discontinuity are not covered; C++ and Python sources are both rebuilt from the tree")
+CLAIMED["C18"] = ("exploration", "exhaustive enumeration of all multigraphs up to 4 nodes/4 links (thorough 5/5) x every subset of the 2m valve positions (+ duplicated rows), union-find reference partition",
+    "every (graph, valve layer) pair inside the bound is passed to valve_segments and valve_segment_attributes; the partition must equal the union-find partition induced by the layer (label-independent), sizes must count members, and num_surround / demand_increase / length_increase are recomputed from the reference partition",
+    "graphs beyond the node/link bound and self-loops are not covered")
+CLAIMED["C20"] = ("exploration", "crossed enumeration of pattern-length pairs x pattern step x pattern_start x multiplier x report step for the demand metrics (incl. a DD simulation per case), fixed-pattern synthetic tables for the resilience / pump formulas, and boundary-value enumeration of every lookup-table midpoint for the economic metrics",
+    "every combination of the alphabets is evaluated with the real metric functions and compared with 5-10 line reference formulas written from the docstrings; lookup tables are probed at, just below and just above every midpoint between consecutive entries",
+    "one open known finding (annual_network_cost treats the percentage efficiency as a fraction); values between alphabet points are not covered")
 NOT_YET = "check not built yet in this session (work in progress, see DESIGN.md section 4)"
 
 
